@@ -38,8 +38,8 @@ var props = map[string]*PropSpec{
 			"unresolvable names and IPv6 literals: only 'never raises' and 'loopback/private never through the gateway' are judged",
 			"concurrency of application threads is simulated by re-entrancy (other calls run while one call is inside the transport), Python threads are not scheduled",
 		},
-		Real:         []string{"lunar_interceptor fail_safe.py, traffic_filter.py, configuration.py, hooks/requests.py (RequestsHook._hook_module / _make_request), wiring functions of lunar_interceptor/__init__.py"},
-		Stub:         []string{"requests (Session transport decides each call's outcome), yarl.URL (urllib based), aiohttp/tornado (empty), DNS resolver, clock", "the gateway itself"},
+		Real:         []string{"lunar_interceptor fail_safe.py, traffic_filter.py, configuration.py, hooks/requests.py (RequestsHook._hook_module / _make_request), wiring functions of lunar_interceptor/__init__.py; the constructors of hooks/aiohttp.py and hooks/tornado.py (their registrations on the shared fail-safe)"},
+		Stub:         []string{"requests (Session transport decides each call's outcome), yarl.URL (urllib based), aiohttp/multidict/tornado (far enough for their hooks to be constructed; no traffic), DNS resolver, clock", "the gateway itself"},
 		ExpectProbes: []string{"gateway_failure", "application_exception", "dns_failure", "in_flight_call_overlaps_breaker_opening"},
 	},
 	"C15": {
@@ -52,7 +52,7 @@ var props = map[string]*PropSpec{
 			"torn or failed state-file writes are not injected: the property speaks of written-and-read-back state, not of crash atomicity",
 		},
 		Real:         []string{"aggregation-output-plugin discovery.Run, GetUpdatedAggregations, ConvergeAggregation, ExtractAggs, State persistence", "shared-model discovery Combine / persistence conversion", "toolkit-core urltree with assumed path parameters"},
-		Stub:         []string{"fluent-bit (records enter at discovery.Run)", "engine admin notification (ENGINE_ADMIN_PORT unset)"},
+		Stub:         []string{"fluent-bit (records enter at discovery.Run)", "the engine's admin endpoint (stub http.DefaultTransport: reachable / unreachable / 500; ENGINE_ADMIN_PORT set in the child)"},
 		ExpectProbes: []string{"batch_split", "restart_with_only_state_file"},
 	},
 	"C18": {
@@ -187,7 +187,7 @@ var props = map[string]*PropSpec{
 			"cache size is judged on body bytes of the entries that currently replay (a lower bound of their accounted size)",
 		},
 		Real:         []string{"services/remedies.CachingPlugin", "services/remedies.ResponseBasedThrottlingPlugin", "utils.MemoryCache incl. sleeper goroutines", "RealClock on synctest fake time"},
-		Stub:         []string{"plugin dispatcher / HAProxy transport (events enter at OnRequest/OnResponse)"},
+		Stub:         []string{"plugin dispatcher / HAProxy transport (events enter at OnRequest/OnResponse; the dispatcher's hand-over of a replay to the remedy's response side is done by the harness)"},
 		ExpectProbes: []string{"concurrent_group"},
 	},
 	"C09": {
